@@ -188,6 +188,8 @@ def concrete_violated(ob):
         det['nonfinite'] = True
         return ob.meta.get('finite_required', False), det
     scale = max(1.0, abs(a), abs(b), float(ob.meta.get('scale', 0.0)))
+    if ob.meta.get('relative'):
+        scale = max(abs(a), abs(b), 1e-300)       # purely relative comparison (quantities of arbitrary magnitude)
     if ob.kind == 'eq':
         return abs(a - b) > ob.tol * scale, det
     if ob.kind == 'le':
